@@ -48,6 +48,9 @@ pub struct ChainModel {
 	pub time: u32,
 	/// setup transactions (coinbase-like, synthetic funding) bypass script checks
 	pub setup_txids: HashSet<Txid>,
+	/// every header ever mined (also of blocks later reorganised away) with its height, so that
+	/// the fork point of a consumer that sits on a vanished block can be found exactly
+	pub all_headers: HashMap<bitcoin::BlockHash, (Header, u32)>,
 }
 
 pub const MIN_RELAY_SAT_PER_KW: u64 = 253;
@@ -66,6 +69,11 @@ impl ChainModel {
 			all_txs: HashMap::new(),
 			time: 42,
 			setup_txids: HashSet::new(),
+			all_headers: {
+				let mut m = HashMap::new();
+				m.insert(header.block_hash(), (header, 0));
+				m
+			},
 		}
 	}
 
@@ -95,7 +103,21 @@ impl ChainModel {
 			self.confirmed.insert(txid, height);
 			self.all_txs.insert(txid, tx.clone());
 		}
+		self.all_headers.insert(header.block_hash(), (header, height));
 		self.blocks.push(Block { header, txs });
+	}
+
+	/// Height of the highest ancestor of `hash` (a block this model mined at some point) that is
+	/// still in the chain; None when the block is unknown.
+	pub fn fork_height_of(&self, hash: &bitcoin::BlockHash) -> Option<u32> {
+		let mut cur = *hash;
+		loop {
+			let (hdr, h) = self.all_headers.get(&cur)?;
+			if (*h as usize) < self.blocks.len() && self.blocks[*h as usize].header.block_hash() == cur {
+				return Some(*h);
+			}
+			cur = hdr.prev_blockhash;
+		}
 	}
 
 	/// Mines a setup transaction (no script checks) directly.
